@@ -140,7 +140,7 @@ def check(run):
             k += 1
     r = gen.rng_for(run.seed, "c10")
     for _ in range(800 if thorough else 250):
-        n = r.choice([1, 2, 3, 5, 8, 12, 16, 24])
+        n = r.choice([1, 2, 3, 5, 8, 12, 16, 24]) if r.random() > 0.06 else r.choice([34, 48, 70])
         mask = [r.random() < 0.25 for _ in range(n)]
         if all(mask):
             mask[r.randrange(n)] = False
